@@ -64,6 +64,8 @@ type reader struct {
 	maxFinSteps                   int
 	apiCalls, api4xx              uint64
 	nWalks, nJust, nNext          uint64
+	nJustSkipped                  uint64
+	just                          []justObs
 	apiBest                       []apiObs
 	all                           []obsRec // every observation of best (checked against the publication timeline after the run)
 
@@ -371,15 +373,48 @@ func (r *reader) observeJustified() {
 		r.violate("justified-unreadable", fmt.Sprintf("justified %s: %v", short(j), err), s, e, j)
 		return
 	}
-	// content: a checkpoint at or above the finalized checkpoint seen before the call, on its chain, not above best
-	best := n.Repo.BestBlockSummary()
-	switch f := r.w.facts[j]; {
-	case sum.Header.Number()%3 != 0:
+	if sum.Header.Number()%3 != 0 {
 		r.violate("justified-inadmissible", fmt.Sprintf("justified %s is not a checkpoint", short(j)), s, e, j)
-	case f != nil && !r.w.isAnc(fin0, j):
-		r.violate("justified-inadmissible", fmt.Sprintf("justified %s does not descend from the finalized checkpoint %s seen before the call", short(j), short(fin0)), s, e, j)
-	case sum.Header.Number() > best.Header.Number()+0 && r.w.facts[best.Header.ID()] != nil && !r.w.isAnc(j, best.Header.ID()):
-		r.violate("justified-inadmissible", fmt.Sprintf("justified %s is above the best block %s read after the call", short(j), short(best.Header.ID())), s, e, j)
+	}
+	// the rest of the content oracle is decided after the run (judgeJustified): it needs to know whether the node's
+	// best block descended from its finalized checkpoint during the call
+	if len(r.just) < 300000 {
+		r.just = append(r.just, justObs{s: s, e: e, j: j, fin0: fin0, best1: n.Repo.BestBlockSummary().Header.ID()})
+	}
+}
+
+type justObs struct {
+	s, e           uint64
+	j, fin0, best1 thor.Bytes32
+}
+
+// judgeJustified: justified must be a checkpoint descending from the finalized checkpoint seen before the call and not
+// above the best block read after it. Judged only for calls that did not overlap an interval in which the node's own
+// best block did NOT descend from its finalized checkpoint: a stream in which more than a third of the validators vote
+// COM on two branches can commit a block of a non-best branch and move finalized there (bft.Select compares quality
+// and score only) - outside the < 1/3 assumption of the finality properties, and not what C20 states.
+func (r *reader) judgeJustified(off [][2]uint64, noStamp bool) {
+	for _, o := range r.just {
+		skip := noStamp && len(off) > 0
+		for _, iv := range off {
+			if o.s <= iv[1] && iv[0] <= o.e {
+				skip = true
+			}
+		}
+		if skip {
+			r.nJustSkipped++
+			continue
+		}
+		fj, fb := r.w.facts[o.j], r.w.facts[o.best1]
+		switch {
+		case fj == nil || fb == nil:
+		case !r.w.isAnc(o.fin0, o.j):
+			r.violate("justified-inadmissible", fmt.Sprintf("justified %s does not descend from the finalized checkpoint %s seen before the call", short(o.j), short(o.fin0)), o.s, o.e, o.j)
+			return
+		case fj.num > fb.num:
+			r.violate("justified-inadmissible", fmt.Sprintf("justified %s is above the best block %s read after the call", short(o.j), short(o.best1)), o.s, o.e, o.j)
+			return
+		}
 	}
 }
 
